@@ -466,6 +466,12 @@ func (e *SpecEnv) evalSel(n *SSel) Value {
 	if _, op := isOpaqueScalar(bt); op {
 		return base
 	}
+	// pointer to an opaque wrapper (q.PreemptMinRuntime.Duration with *metav1.Duration): the field is the pointed-to scalar
+	if el := derefType(bt); el != nil {
+		if _, op := isOpaqueScalar(el); op {
+			return u0(e).loadAt(e.st.View(), base, el)
+		}
+	}
 	path, ok := findField(bt, n.Name, 0)
 	if !ok {
 		e.fail("no field %s in %s", n.Name, shortType(bt))
@@ -1115,7 +1121,7 @@ func (e *SpecEnv) modItems(x SExpr) []modItem {
 				key = &k
 			}
 			out = append(out, modItem{fam: mapDomFam(b.Typ), sort: ArrSort(SInt, ArrSort(ks, SBool)), idx: b.T, key: key})
-			for _, c := range comps(m.Elem()) {
+			for _, c := range mapComps(m.Elem()) {
 				out = append(out, modItem{fam: mapValFam(b.Typ) + c[0], sort: ArrSort(SInt, ArrSort(ks, c[1])), idx: b.T, key: key})
 			}
 			return out
@@ -1219,3 +1225,5 @@ func (e *SpecEnv) ghostLoc(d *Define, home *PkgInfo, args []Value) (string, stri
 	e.fail("ghost %s: at most one parameter is supported", d.Name)
 	return "", "", nil
 }
+
+func u0(e *SpecEnv) *Unit { return e.u }
